@@ -1,6 +1,6 @@
 """C16 — node health follows the documented thresholds and is reported on edges only."""
 import json, os, re
-from verifkit import read_lines
+from verifkit import read_lines, REPO
 
 REQUIRED = []  # filled below (kept as a module-level list so deleting a theorem is detected)
 
@@ -11,32 +11,34 @@ REQUIRED += ["DaeVerif.C16.Props." + n for n in [
     "ignorable_never_counts", "canceled_probe_never_counts",
     "suppressed_failures_dont_count", "suppression_window", "suppression_steps",
     "callbacks_on_edges_only", "callbacks_on_edges_only_history",
-    "groups_see_state",
+    "groups_see_state", "concurrent_reports_agree_at_quiescence", "captured_value_protocol_can_disagree",
     "group_callbacks_are_edges", "random_policy_never_writes", "kernel_bit",
     "kernel_key_injective", "kernel_key_slots",
     "reload_snapshot_drops_counters", "reload_hands_over_state", "reload_floor_leaves_selectable",
-    "reload_leaves_every_group_selectable", "handover_matches_per_group", "handover_unmatched_node_untouched", "reload_old_order_leaves_group_empty", "kernel_callback_guards",
+    "reload_leaves_every_group_selectable", "handover_matches_per_group", "handover_unmatched_node_untouched", "reload_old_order_leaves_group_empty", "kernel_callback_guards", "kernel_map_changed_only_by_live_report", "kernel_map_untouched_by_wiring_and_retirement",
+    "kernel_map_is_last_live_report_partial",
 ]]
 
 PKG = "component/outbound/dialer"
 
 
-_MARKS = ["N[", " T[", " G[", " E[", " S[", " K[", " P["]
+_MARKS = ["N[", " T[", " G[", " E[", " S[", " K[", " P[", " M["]
 
 
 def _fields(line):
-    """N[..] T[..] G[..] E[..] S[..] K[..] P[..] -> dict (S contains nested brackets)"""
-    out, pos = {}, []
-    start = 0
+    """N[..] T[..] G[..] E[..] S[..] K[..] P[..] (M[..]) -> dict (S contains nested brackets)"""
+    pos, start = [], 0
     for mk in _MARKS:
         j = line.find(mk, start)
         if j < 0:
-            return {m.group(1): m.group(2) for m in re.finditer(r"([A-Z])\[([^\]]*)\]", line)}
-        pos.append((mk.strip()[0], j + len(mk)))
+            continue
+        pos.append((mk.strip()[0], j, j + len(mk)))
         start = j + len(mk)
-    for k, (name, a) in enumerate(pos):
-        b = (pos[k + 1][1] - len(_MARKS[k + 1])) if k + 1 < len(pos) else len(line)
-        out[name] = line[a:b].rstrip()[:-1] if line[a:b].rstrip().endswith("]") else line[a:b]
+    out = {}
+    for k, (name, _, a) in enumerate(pos):
+        b = pos[k + 1][1] if k + 1 < len(pos) else len(line)
+        body = line[a:b].rstrip()
+        out[name] = body[:-1] if body.endswith("]") else body
     return out
 
 
@@ -45,6 +47,98 @@ IDX = {"t": 4, "T": 4, "a": 4, "b": 4, "d": 2, "z": 2, "u": 6, "x": 6, "y": 6}
 
 def typ_idx(tok):
     return IDX[tok[0]] + (1 if tok[1] == "6" else 0)
+
+
+def _scan_block_end(src, open_idx):
+    depth, i, n = 0, open_idx, len(src)
+    while i < n:
+        c = src[i]
+        if src.startswith("//", i):
+            i = src.find("\n", i)
+            if i < 0:
+                return -1
+            continue
+        if src.startswith("/*", i):
+            i = src.find("*/", i) + 2
+            continue
+        if c in "\"'`":
+            q, i = c, i + 1
+            while i < n and src[i] != q:
+                if src[i] == "\\" and q != "`":
+                    i += 1
+                i += 1
+            i += 1
+            continue
+        if c == "{":
+            depth += 1
+        elif c == "}":
+            depth -= 1
+            if depth == 0:
+                return i + 1
+        i += 1
+    return -1
+
+
+def extract_wiring_region(ctx):
+    """zz_verif_c16_wiring.go: the VERBATIM region of control.NewControlPlane from `// Dial mode.` to the end
+    of the group loop (dial-mode parse, disableKernelAliveCallback, direct/block groups, pool, per-group
+    override clones, NewDialerGroup with core.outboundAliveChangeCallback(uint8(len(outbounds)), …)),
+    wrapped into a function of package control that takes a real *controlPlaneCore."""
+    path = os.path.join(REPO, "control", "control_plane.go")
+    src = open(path, encoding="utf-8").read()
+    start_pat = "\t// Dial mode.\n"
+    a = src.find(start_pat)
+    if a < 0 or src.find(start_pat, a + 1) >= 0:
+        return None, "start marker `// Dial mode.` not found exactly once"
+    m = re.compile(r"for\s+_,\s*group\s*:=\s*range\s+groups\s*\{").search(src, a)
+    if not m or m.start() - a > 6000:
+        return None, "loop `for _, group := range groups {` not found after the dial-mode block"
+    b = _scan_block_end(src, m.end() - 1)
+    if b < 0:
+        return None, "could not find the end of the group loop"
+    region = src[a:b]
+    for needed in ("disableKernelAliveCallback", "core.outboundAliveChangeCallback(", "outbounds"):
+        if needed not in region:
+            return None, "region no longer mentions `%s`" % needed
+    imp = re.search(r"import\s*\((.*?)\n\)", src, re.S)
+    imports = {}
+    for line in (imp.group(1).split("\n") if imp else []):
+        mm = re.match(r'\s*(?:(\w+)\s+)?"([^"]+)"', line)
+        if not mm:
+            continue
+        alias, pth = mm.group(1), mm.group(2)
+        ident = alias or re.sub(r"^v\d+$", "", pth.split("/")[-1]) or pth.split("/")[-2]
+        if re.search(r"\b%s\." % re.escape(ident), region):
+            imports[pth] = alias
+    for pth in ("github.com/daeuniverse/dae/component/outbound", "github.com/daeuniverse/dae/component/outbound/dialer",
+                "github.com/daeuniverse/dae/config", "github.com/sirupsen/logrus"):
+        imports.setdefault(pth, None)
+    gen = os.path.join(ctx.out, "c16_wiring.go")
+    with open(gen, "w") as f:
+        f.write("// Code generated by /verif/checks/c16.py from %s (bytes %d..%d). DO NOT EDIT.\n" % (path, a, b))
+        f.write("package control\n\nimport (\n")
+        for pth, alias in sorted(imports.items()):
+            f.write('\t%s"%s"\n' % ((alias + " ") if alias else "", pth))
+        f.write(""")
+
+type c16Wiring struct {
+	Outbounds  []*outbound.DialerGroup
+	DeferFuncs []func() error
+	Dryrun     bool
+}
+
+func c16RealWiring(core *controlPlaneCore, option *dialer.GlobalOption, global *config.Global, tagToNodeList map[string][]string, groups []config.Group, log *logrus.Logger) (res *c16Wiring, err error) {
+	var deferFuncs []func() error
+	// ---------------------------------------------------------------- verbatim from control_plane.go
+""")
+        f.write(region)
+        f.write("""
+	// ---------------------------------------------------------------- end of verbatim region
+	_ = sniffingTimeout
+	return &c16Wiring{Outbounds: outbounds, DeferFuncs: deferFuncs, Dryrun: disableKernelAliveCallback}, nil
+}
+""")
+    return gen, "bytes %d..%d of control_plane.go (%d lines)" % (a, b, region.count("\n") + 1)
 
 
 def main_canon(line):
@@ -92,7 +186,7 @@ def kernel_canon(line):
         if x:
             m = re.match(r"\d+\.\d+[ai]\[([^\]]*)\]", x)
             lens.append(str(len([e for e in m.group(1).split(",") if e])))
-    return f"A[{a}] L[{','.join(lens)}] K[{f['K']}]"
+    return f"A[{a}] L[{','.join(lens)}] K[{f['K']}] M[{f.get('M', '')}]"
 
 
 def reload_oracle(kop_lines, kimpl_lines, report, max_reports=3):
@@ -327,9 +421,33 @@ def run(ctx):
         if op == "crash" or im.startswith("crash:"):
             ctx.report(f"real code panicked: {im[:300]}", {"op": op, "impl": im})
 
+    # ---- concurrency probe (same test binary): racing reports, agreement at quiescence
+    rc, out = ctx.run_harness(binp, "TestVerifC16Race")
+    rpath = os.path.join(ctx.out, "c16r.json")
+    if rc != 0 or not os.path.exists(rpath):
+        ctx.say("HARNESS-FAILED (race probe)", out[-3000:])
+        return 2
+    race = json.load(open(rpath))
+    ctx.cov["race_probe"] = race
+    for name, r in sorted(race.items()):
+        if r["NodeVsSet"] or r["SetVsCallback"]:
+            ctx.report(f"implementation violates `every group containing the node sees the node's state after each event` under "
+                       f"concurrency ({name}): after two racing reports on one node the set disagrees with the node in "
+                       f"{r['NodeVsSet']} of {r['Rounds']} rounds (set vs last group callback: {r['SetVsCallback']}); first at round "
+                       f"{r['FirstRound']}: {r['Detail']}",
+                       {"clause": "stale group notification race", "variant": name, "result": r,
+                        "replay": "VERIF_C16_RACE_ROUNDS=%d ./check C16 %s  (probabilistic; pre-fix rate ~1/1000 rounds)" % (r["Rounds"] * 2, ctx.tier)})
+
     # ---- kernel side: real outboundAliveChangeCallback + real BPF array map (package control)
     n_k = 0
-    kbin = ctx.go_test_build("control", ["control/c16_test.go"], "c16k")
+    wgen, whow = extract_wiring_region(ctx)
+    ctx.cov["control_plane_wiring_region"] = whow
+    if not wgen:
+        ctx.say("TRANSLATOR-FAILED C16 wiring region:", whow,
+                "- the dial-mode/group-wiring region of NewControlPlane can no longer be located; adapt extract_wiring_region")
+        return 2
+    kbin = ctx.go_test_build("control", ["control/c16_test.go"], "c16k",
+                             extra_overlay={os.path.join(REPO, "control", "zz_verif_c16_wiring.go"): wgen})
     if not kbin:
         return 2
     rc, out = ctx.run_harness(kbin, "TestVerifC16Kernel")
@@ -354,7 +472,24 @@ def run(ctx):
                        f"real {konly(im)} model {konly(mo)}",
                        {"stream": "c16k", "line": ln, "op": op, "impl": im, "model": mo,
                         "replay": "VERIF_SEED=%d ./check C16 %s" % (ctx.seed, ctx.tier)})
-        n_k = len(kop_lines)
+        # ---- the NewControlPlane wiring region, executed verbatim on a real core and the real map
+        rc, out = ctx.run_harness(kbin, "TestVerifC16Wiring")
+        wops, wimpl, wmodel = (os.path.join(ctx.out, "c16w." + e) for e in ("ops", "impl", "model"))
+        if rc != 0 or not os.path.exists(wops):
+            ctx.say("HARNESS-FAILED (wiring region)", out[-3000:])
+            return 2
+        if not ctx.driver("c16drv", wops, wmodel):
+            ctx.proof_failures.append("model driver c16drv failed to run (wiring stream)")
+        for ln, op, im, mo in ctx.diff_streams(wops, wimpl, wmodel, "c16w", canon=konly)[:5]:
+            ctx.report(f"NewControlPlane's group wiring (outbound id = position, dry-run unless dial_mode ip) differs from the "
+                       f"proved model at line {ln} op `{op[:60]}`: real {konly(im)[:300]} model {konly(mo)[:300]}",
+                       {"stream": "c16w", "line": ln, "op": op, "impl": im, "model": mo,
+                        "replay": "VERIF_SEED=%d ./check C16 %s" % (ctx.seed, ctx.tier)})
+        for op, im in zip(read_lines(wops), read_lines(wimpl)):
+            if im.startswith("crash:"):
+                ctx.report(f"the NewControlPlane wiring region failed: {im[:300]}", {"op": op, "impl": im})
+        ctx.cov["wiring_side"] = json.load(open(os.path.join(ctx.out, "c16w.stats.json")))["counters"]
+        n_k += len(read_lines(wops)) + len(kop_lines)
         ctx.cov["kernel_side"] = json.load(open(os.path.join(ctx.out, "c16k.stats.json")))["counters"]
 
     stats = json.load(open(os.path.join(ctx.out, "c16.stats.json")))
